@@ -68,6 +68,10 @@ def _ray3d_core(
     ray = np.empty((max_step, 3), dtype=np.float64)
     ray[0] = pcur.copy()
     while dist3d(zsrc, xsrc, ysrc, pcur[0], pcur[1], pcur[2]) >= stepsize:
+        # Check the budget before storing a new point
+        if count >= max_step or nfree > nfree_max:
+            break
+
         gz = interp3d(z, x, y, zgrad, pcur)
         gx = interp3d(z, x, y, xgrad, pcur)
         gy = interp3d(z, x, y, ygrad, pcur)
@@ -127,9 +131,6 @@ def _ray3d_core(
 
             ray[count] = pcur.copy()
             count += 1
-
-        if count >= max_step or nfree > nfree_max:
-            break
 
     if count >= max_step or nfree > nfree_max:
         return ray, -2
